@@ -40,8 +40,20 @@ type Cfg struct {
 	Recv     string // receiver name used by compilable code blocks (default "c")
 	Pkg      string // package clause of the compilable init block (default "main")
 
+	// OnlyUnder restricts where a kind of expression may occur: kind k (a K* constant) is only drawn below an
+	// ancestor (within the same rule) whose kind is in the bit set OnlyUnder[k]. It gives the grammars in which a
+	// feature is present ONLY in one context (state blocks only inside predicates, actions only under a
+	// repetition, ...): what the builder emits is decided per feature seen, so such grammars exercise its guards.
+	OnlyUnder map[int]uint32
+
 	Avoid Avoid // known-defect avoidance that is lifted
 }
+
+// exported kind constants for OnlyUnder
+const (
+	KChoice, KSeq, KRecovery, KAction, KLabeled, KAnd, KNot, KOpt, KStar, KPlus = kChoice, kSeq, kRecovery, kAction, kLabeled, kAnd, kNot, kOpt, kStar, kPlus
+	KThrow, KRef, KState, KAndCode, KNotCode                                    = kThrow, kRef, kState, kAndCode, kNotCode
+)
 
 func (c Cfg) withDefaults() Cfg {
 	if c.MaxRules <= 0 {
@@ -239,11 +251,12 @@ func digitSuffixOf(short, long string) bool {
 
 // ctx is the generation context of one expression.
 type ctx struct {
-	depth   int  // remaining nesting depth
-	head    bool // may be entered at the position where the rule was entered
-	consume bool // must not be nullable'
-	noCalls bool // while head: neither rule references nor throws (recovery expressions)
-	top     bool // the rule's top expression
+	depth   int    // remaining nesting depth
+	head    bool   // may be entered at the position where the rule was entered
+	consume bool   // must not be nullable'
+	noCalls bool   // while head: neither rule references nor throws (recovery expressions)
+	top     bool   // the rule's top expression
+	anc     uint32 // kinds of the ancestors within the rule (bit k)
 }
 
 func (s *genState) newLabel() *ast.Identifier {
@@ -317,6 +330,9 @@ func (s *genState) allowed(k int, c ctx) bool {
 			return false
 		}
 	}
+	if m, ok := cfg.OnlyUnder[k]; ok && c.anc&m == 0 {
+		return false
+	}
 	if c.depth <= 0 && k <= kPlus {
 		return false
 	}
@@ -375,6 +391,15 @@ func (s *genState) expr(c ctx) ast.Expression {
 			if c.top && (k == kChoice || k == kSeq || k == kAction) {
 				w[k] *= 3
 			}
+			if m, ok := s.cfg.OnlyUnder[k]; ok && c.anc&m != 0 {
+				w[k] *= 6 // a placement-restricted kind, where it is allowed
+			}
+			for _, m := range s.cfg.OnlyUnder {
+				if m&(1<<uint(k)) != 0 && w[k] > 0 {
+					w[k] = w[k]*3 + 4 // ... and the contexts that allow it
+					break
+				}
+			}
 			total += w[k]
 		}
 	}
@@ -386,7 +411,8 @@ func (s *genState) expr(c ctx) ast.Expression {
 		}
 		pick -= w[k]
 	}
-	sub := ctx{depth: c.depth - 1, head: c.head, consume: c.consume, noCalls: c.noCalls}
+	anc := c.anc | 1<<uint(k)
+	sub := ctx{anc: anc, depth: c.depth - 1, head: c.head, consume: c.consume, noCalls: c.noCalls}
 	switch k {
 	case kChoice:
 		e := ast.NewChoiceExpr(ast.Pos{})
@@ -404,7 +430,7 @@ func (s *genState) expr(c ctx) ast.Expression {
 		}
 		head := c.head
 		for i := 0; i < n; i++ {
-			x := s.expr(ctx{depth: c.depth - 1, head: head, consume: i == must, noCalls: c.noCalls})
+			x := s.expr(ctx{anc: anc, depth: c.depth - 1, head: head, consume: i == must, noCalls: c.noCalls})
 			e.Exprs = append(e.Exprs, x)
 			if head && !s.plannedNullable(x) {
 				head = false
@@ -414,7 +440,7 @@ func (s *genState) expr(c ctx) ast.Expression {
 	case kRecovery:
 		e := ast.NewRecoveryExpr(ast.Pos{})
 		e.Expr = s.expr(sub)
-		e.RecoverExpr = s.expr(ctx{depth: c.depth - 1, head: true, consume: c.consume, noCalls: true})
+		e.RecoverExpr = s.expr(ctx{anc: anc, depth: c.depth - 1, head: true, consume: c.consume, noCalls: true})
 		n := 1 + s.r.Intn(2)
 		for i := 0; i < n; i++ {
 			e.Labels = append(e.Labels, ast.FailureLabel(s.flabel[s.r.Intn(len(s.flabel))]))
@@ -432,23 +458,23 @@ func (s *genState) expr(c ctx) ast.Expression {
 		return e
 	case kAnd:
 		e := ast.NewAndExpr(ast.Pos{})
-		e.Expr = s.expr(ctx{depth: c.depth - 1, head: c.head, noCalls: c.noCalls})
+		e.Expr = s.expr(ctx{anc: anc, depth: c.depth - 1, head: c.head, noCalls: c.noCalls})
 		return e
 	case kNot:
 		e := ast.NewNotExpr(ast.Pos{})
-		e.Expr = s.expr(ctx{depth: c.depth - 1, head: c.head, noCalls: c.noCalls})
+		e.Expr = s.expr(ctx{anc: anc, depth: c.depth - 1, head: c.head, noCalls: c.noCalls})
 		return e
 	case kOpt:
 		e := ast.NewZeroOrOneExpr(ast.Pos{})
-		e.Expr = s.expr(ctx{depth: c.depth - 1, head: c.head, noCalls: c.noCalls})
+		e.Expr = s.expr(ctx{anc: anc, depth: c.depth - 1, head: c.head, noCalls: c.noCalls})
 		return e
 	case kStar:
 		e := ast.NewZeroOrMoreExpr(ast.Pos{})
-		e.Expr = s.expr(ctx{depth: c.depth - 1, head: c.head, consume: s.cfg.WellFormed, noCalls: c.noCalls})
+		e.Expr = s.expr(ctx{anc: anc, depth: c.depth - 1, head: c.head, consume: s.cfg.WellFormed, noCalls: c.noCalls})
 		return e
 	case kPlus:
 		e := ast.NewOneOrMoreExpr(ast.Pos{})
-		e.Expr = s.expr(ctx{depth: c.depth - 1, head: c.head, consume: s.cfg.WellFormed || c.consume, noCalls: c.noCalls})
+		e.Expr = s.expr(ctx{anc: anc, depth: c.depth - 1, head: c.head, consume: s.cfg.WellFormed || c.consume, noCalls: c.noCalls})
 		return e
 	case kThrow:
 		e := ast.NewThrowExpr(ast.Pos{})
